@@ -5,7 +5,9 @@
 
 pub mod cur;
 pub mod report;
+pub mod queues;
 pub mod scenarios;
+pub mod shapes;
 pub mod timers;
 
 pub use cur::Cur;
@@ -15,6 +17,7 @@ pub use report::{CaseReport, Opts, Violation};
 pub fn run_engine(engine: &str, bytes: &[u8], opts: &Opts) -> CaseReport {
     match engine {
         "timers" => timers::run_case(bytes, opts),
+        "queues" => queues::run_case(bytes, opts),
         "scenario" => {
             let name = String::from_utf8_lossy(bytes).to_string();
             let mut r = scenarios::run(&name, opts.trace)
